@@ -1,4 +1,4 @@
-CONSTANTS MaxConn = 3  Reqs = {1, 2, 3}  Fix = TRUE
+CONSTANTS MaxConn = 3  Reqs = {1, 2, 3}  Fix = TRUE  RedialFirst = TRUE
 SPECIFICATION Spec
 INVARIANTS TypeOK NoWriteOnKnownDead HealthyNotMarkedClosed NoStranding
 CHECK_DEADLOCK FALSE
